@@ -95,7 +95,7 @@ theorem good_any {g : GCtx} (hg : GOK g) (ip : Bool) : TyGood g ip .any := by
     apply newType_bare
     · rw [resolveType_imp henv (by simp [tyAdds]) (by decide)]; rfl
     · decide
-  · rw [postTy_named, tps_not_dotted hg (n := "typing.Any") (by decide)]
+  · rw [postTy_named, tps_not_dotted hg (n := "typing.Any") (a := "typing") (b := "Any") (l := []) (by decide)]
     simp [normTy]
     decide
 
